@@ -266,11 +266,13 @@ def build_fd(o, ran):
     if o.get('nokw'):
         fd.no_kwargs = True
     _TAG_OF[id(fd)] = (o['tag'], ran)
-    _KEEP.append(fd)
+    if KEEP_FDS[0]:
+        _KEEP.append(fd)
     return fd
 
 
 _KEEP = []
+KEEP_FDS = [True]      # (the rebuilt-families part lets definitions die, so that their addresses are reused)
 
 
 def _ptype(o, n, pnames, lat, yaqltypes):
@@ -529,6 +531,7 @@ def run(rep, tier, seed, keep=False, c06=False):
         runner = Runner()
         n = 0
         multi = 0
+        expect = []
         jobs = [(dump, fams, 0)]
         # a second, small job over the mixin classes (values V, D, B only): "more specific" is not transitive there
         r3, d3 = gen(rep, wd, MIXIN, tier, invs, name='mixin', vals=['V', 'D', 'B'])
@@ -553,6 +556,8 @@ def run(rep, tier, seed, keep=False, c06=False):
                 if off:
                     orders = list(itertools.islice(itertools.product(*per_layer), 24))      # (all 6 or 24 orders of the one layer)
             check_case(rep, runner, fam_cache, fi + off, family, call, out, label, orders)
+            if c06 and not off and fi <= 3 and out['res'] in ('run', 'Ambiguous') and len(expect) < 40:
+                expect.append((fi, call, (str(out['res']), str(out['tag']))))
             n += 1
             rep.evaluations += len(orders) if orders else 1
             if out['res'] in ('run', 'Ambiguous'):
@@ -560,6 +565,32 @@ def run(rep, tier, seed, keep=False, c06=False):
             if n % 2503 == 1:
                 rep.sample({'family': _fam_short(family), 'call': render_call(call)[0], 'outcome': dict(out)})
         os.remove(d3)
+        if c06:
+            # the same families built again and again from fresh definitions (the old ones die and their addresses are reused),
+            # overloads created and registered in rotating orders: the outcome belongs to the family and the call, not to the
+            # history of the process
+            import gc
+            nreb = 0
+            KEEP_FDS[0] = False
+            try:
+                for rnd in range(25 if tier == 'quick' else 150):
+                    for fi, call, want in expect[:12]:
+                        family = fams[fi - 1]
+                        ran = []
+                        ctx, ctxs, layer_fds = build_chain(family, ran, perm_seed=rnd * 31 + fi, root=runner.root)
+                        res, ticks, ran_, txt, nprobe = runner.run(ctx, ran, call)
+                        got = (res[0], res[1] if res[0] == 'run' else '')
+                        nreb += 1
+                        rep.evaluations += 1
+                        if got != want:
+                            rep.violation('C06/rebuilt-family/%s-vs-%s' % (want[0], got[0]), '%s with family %s built afresh (round %d): real %r, documented rules give %r' % (
+                                txt, _fam_short(family), rnd, got, want), {'family': _fam_json(family), 'call': call, 'round': rnd})
+                            break
+                        del ctx, ctxs, layer_fds
+                    gc.collect()
+            finally:
+                KEEP_FDS[0] = True
+            rep.extra['rebuilt_family_calls'] = nreb
         os.remove(dump)
         rep.traces += n
         rep.nontrivial = multi
